@@ -18,7 +18,7 @@ def value_record(ty, v):
     return {'k': 'str', 'v': v}
 
 
-def build_items(tier, seed):
+def build_items(tier, seed, cases=None, strict=False):
     from oal_render import render
     rnd = random.Random(seed)
     n = 32 if tier == 'quick' else 300
@@ -48,9 +48,13 @@ def build_items(tier, seed):
             bodies.append(s); index.append((k, 'script:%d' % j))
     out, _ = oalcheck.unparse_stage(bodies)
     texts = [dict() for _ in envs]
+    lower = [dict() for _ in envs]
     for (k, key), o in zip(index, out):
-        case = ['lower', 'lower', 'upper', 'mixed'][k % 4]
-        texts[k][key] = render(o['toks'], rnd.randint(0, 10 ** 9), case, ['plain', 'mixed'][k % 2])[0]
+        case = (cases or ['lower', 'lower', 'upper', 'mixed'])[k % len(cases or [0] * 4)]
+        sd = rnd.randint(0, 10 ** 9)
+        texts[k][key] = render(o['toks'], sd, case, ['plain', 'mixed'][k % 2])[0]
+        if strict:
+            lower[k][key] = render(o['toks'], sd, 'lower', ['plain', 'mixed'][k % 2])[0]
     items = []
     for k, env in enumerate(envs):
         scr, calls = per[k]
@@ -63,17 +67,21 @@ def build_items(tier, seed):
             'enums': env['enums'],
             'consts': {n: value_record(ty, v) for n, (ty, v) in env['consts'].items()},
         }
-        items.append({'env': env, 'env_spec': spec_env, 'texts': texts[k], 'scripts': scr,
+        items.append({'env': env, 'env_spec': spec_env, 'texts': texts[k], 'texts_lower': lower[k] if strict else None, 'scripts': scr,
                       'script_texts': [texts[k]['script:%d' % j] for j in range(len(scr))], 'calls': calls,
                       'seed': rnd.randint(0, 10 ** 6), 'shuffle': bool(k % 2)})
     return items
 
 
 def check(tier, replay_path=None):
+    return run(PID, tier, replay_path)
+
+
+def run(PID, tier, replay_path=None, cases=None, strict=False):
     t = common.Timer()
     rep = evidence.Report(PID)
     seed = common.seed()
-    items = [common.read_json(replay_path)['item']] if replay_path else build_items(tier, seed)
+    items = [common.read_json(replay_path)['item']] if replay_path else build_items(tier, seed, cases, strict)
     runs = [{'items': items[i:i + 2]} for i in range(0, len(items), 2)]
     traces = replay.replay('calls', {'schema': oalgen.OAL_SCHEMA}, runs, timeout=3000)
     c = c04.consts()
